@@ -238,6 +238,7 @@ func init() {
 		"slices.Clone":   slicesClone,
 		"slices.Reverse": slicesReverse,
 		"sort.Slice":     sortSlice,
+		"sort.Ints":      sortInts,
 		"math/bits.Len64": bitsLen64,
 		"strings.Join":    stringsJoin,
 		"errors.Is":       errorsIs,
@@ -265,6 +266,11 @@ func (e *Engine) modelMods(fv *FuncVer, fn *ssa.Function, cc *ssa.CallCommon) []
 	case strings.Contains(name, "encoding/binary") && (strings.Contains(name, "Put") || strings.Contains(name, "Append")):
 		return []string{byteKey}
 	case name == "slices.Clone" || name == "slices.Reverse":
+		if sl, ok := types.Unalias(cc.Args[0].Type()).Underlying().(*types.Slice); ok {
+			k, _ := fv.elemsKey(sl.Elem())
+			return []string{k}
+		}
+	case name == "sort.Ints":
 		if sl, ok := types.Unalias(cc.Args[0].Type()).Underlying().(*types.Slice); ok {
 			k, _ := fv.elemsKey(sl.Elem())
 			return []string{k}
@@ -454,39 +460,64 @@ func slicesReverse(fv *FuncVer, st *State, ins ssa.Instruction, fn *ssa.Function
 	return nil
 }
 
+// sortInts: sort.Ints(x) leaves a permutation of x in ascending order.
+func sortInts(fv *FuncVer, st *State, ins ssa.Instruction, fn *ssa.Function, args []Val, cc *ssa.CallCommon) Val {
+	c := fv.ctx
+	slt, ok := types.Unalias(cc.Args[0].Type()).Underlying().(*types.Slice)
+	sl, ok2 := args[0].(*Term)
+	if !ok || !ok2 {
+		panic(unsupported("sort.Ints on a non-slice value"))
+	}
+	newRow, off, ln := fv.permuteSlice(st, sl, slt.Elem())
+	if newRow == nil {
+		return nil
+	}
+	a := BoundVar("a_q", c.W)
+	b := BoundVar("b_q", c.W)
+	at := func(k *Term) *Term { return Select(newRow, c.WAdd(off, k)) }
+	st.assume(Forall([]*Term{a, b}, Implies(And(c.WLe(c.WLit(0), a), c.WLe(a, b), c.WLt(b, ln)), c.Cmp(token.LEQ, at(a), at(b), slt.Elem())), at(a), at(b)))
+	return nil
+}
+
+// permuteSlice replaces the contents of sl by an unspecified permutation of itself and returns
+// the new row of the element store (nil when the slice is literally empty).
+func (fv *FuncVer) permuteSlice(st *State, sl *Term, et types.Type) (*Term, *Term, *Term) {
+	c := fv.ctx
+	key, hs := fv.elemsKey(et)
+	h := fv.heap(st, key, hs)
+	base, off, ln := Field(sl, 0), Field(sl, 1), Field(sl, 2)
+	if rl := resolve(ln); rl.IsLit && rl.Int.Sign() == 0 {
+		return nil, nil, nil
+	}
+	oldRow := c.Name("sortold", Select(h, base))
+	newRow := c.Fresh("sorted", oldRow.Sort)
+	perm := c.Fresh("perm", c.ArraySort(c.W, c.W))
+	inv := c.Fresh("perminv", c.ArraySort(c.W, c.W))
+	j := BoundVar("j_q", c.W)
+	i := BoundVar("i_q", c.W)
+	out := Or(c.WLt(j, off), c.WLe(c.WAdd(off, ln), j))
+	in := And(c.WLe(c.WLit(0), i), c.WLt(i, ln))
+	at := func(arr, k *Term) *Term { return Select(arr, c.WAdd(off, k)) }
+	pi := Select(perm, i)
+	st.assume(Forall([]*Term{j}, Implies(out, Eq(Select(newRow, j), Select(oldRow, j))), Select(newRow, j)))
+	st.assume(Forall([]*Term{i}, Implies(in, And(c.WLe(c.WLit(0), pi), c.WLt(pi, ln), Eq(Select(inv, pi), i), Eq(at(newRow, i), at(oldRow, pi)))), at(newRow, i)))
+	ii := Select(inv, i)
+	st.assume(Forall([]*Term{i}, Implies(in, And(c.WLe(c.WLit(0), ii), c.WLt(ii, ln), Eq(Select(perm, ii), i), Eq(at(newRow, ii), at(oldRow, i)))), at(oldRow, i)))
+	// an empty slice (in particular one with base 0) gets back exactly its old row: by the first
+	// axiom the new row equals the old one outside [off, off+len)
+	st.heaps[key] = c.Name("h", Store(h, base, newRow))
+	fv.note(st, "sort: unspecified permutation")
+	return newRow, off, ln
+}
+
 func sortSlice(fv *FuncVer, st *State, ins ssa.Instruction, fn *ssa.Function, args []Val, cc *ssa.CallCommon) Val {
 	// sort.Slice(x, less): afterwards the slice holds an unspecified permutation of its
 	// former elements (no order is assumed, so nothing depends on what less computes);
 	// less is assumed to have no side effects. Everything else is unchanged.
-	c := fv.ctx
 	if mi, ok := cc.Args[0].(*ssa.MakeInterface); ok {
 		if slt, ok := types.Unalias(mi.X.Type()).Underlying().(*types.Slice); ok {
 			if sl, ok := fv.val(st, mi.X).(*Term); ok {
-				key, hs := fv.elemsKey(slt.Elem())
-				h := fv.heap(st, key, hs)
-				base, off, ln := Field(sl, 0), Field(sl, 1), Field(sl, 2)
-				if rl := resolve(ln); rl.IsLit && rl.Int.Sign() == 0 {
-					return nil // nothing to sort
-				}
-				oldRow := c.Name("sortold", Select(h, base))
-				newRow := c.Fresh("sorted", oldRow.Sort)
-				perm := c.Fresh("perm", c.ArraySort(c.W, c.W))
-				inv := c.Fresh("perminv", c.ArraySort(c.W, c.W))
-				// indices relative to the slice, so that the reads s[k] of contracts (array index
-				// off+k) match the triggers and their instances
-				j := BoundVar("j_q", c.W)
-				i := BoundVar("i_q", c.W)
-				out := Or(c.WLt(j, off), c.WLe(c.WAdd(off, ln), j))
-				in := And(c.WLe(c.WLit(0), i), c.WLt(i, ln))
-				at := func(arr, k *Term) *Term { return Select(arr, c.WAdd(off, k)) }
-				pi := Select(perm, i)
-				st.assume(Forall([]*Term{j}, Implies(out, Eq(Select(newRow, j), Select(oldRow, j))), Select(newRow, j)))
-				st.assume(Forall([]*Term{i}, Implies(in, And(c.WLe(c.WLit(0), pi), c.WLt(pi, ln), Eq(Select(inv, pi), i), Eq(at(newRow, i), at(oldRow, pi)))), at(newRow, i)))
-				// onto: every former element is somewhere in the result
-				ii := Select(inv, i)
-				st.assume(Forall([]*Term{i}, Implies(in, And(c.WLe(c.WLit(0), ii), c.WLt(ii, ln), Eq(Select(perm, ii), i), Eq(at(newRow, ii), at(oldRow, i)))), at(oldRow, i)))
-				st.heaps[key] = c.Name("h", Store(h, base, newRow))
-				fv.note(st, "sort.Slice: unspecified permutation")
+				fv.permuteSlice(st, sl, slt.Elem())
 				return nil
 			}
 		}
